@@ -229,6 +229,14 @@ def run_one(job):
                         out["first_changer"] = {"rule": r.unique_id, "check_lines": rep or [], "fix_lines": sorted({ln for _, _, ln, _ in cur["edits"]})}
                     elif rep and r.fixable and not r.disable and r.severity.type == severity.error_type:
                         untouched["quiet"].append({"rule": r.unique_id, "check_lines": rep[:20]})
+                if changed and "shared_token_object" not in out and len(set(map(id, L2))) != len(L2):
+                    seen_, dup_ = set(), None
+                    for t_ in L2:
+                        if id(t_) in seen_:
+                            dup_ = t_
+                            break
+                        seen_.add(id(t_))
+                    out["shared_token_object"] = {"rule": r.unique_id, "class": type(dup_).__module__.replace("vsg.", "") + "." + type(dup_).__name__}
                 if changed:
                     cur["last_changer"] = r.unique_id
                     ed = cur["edits"]
